@@ -203,16 +203,19 @@ PROPS["C02"] = {
 
 # ---------------------------------------------------------------- C06
 PROPS["C06"] = {
-    "level": "model_checking", "engine": "kani", "premises": True,
+    "level": "model_checking", "engine": "kani+mir-smt", "premises": True, "mir": True,
     "technique": "bounded model checking (Kani/CBMC) of Column::bitfield -> ColumnBuilder::with_bitfield over all "
                  "column definitions create_table accepts (acceptance boundary measured natively per run)",
     "claim": "For every column definition (type, any usize string width, localizable/nullable/primary-key flags, "
              "category) that the real create_table accepts -- bit-field storable in the catalogue's Type cell and "
              "width within the natively measured acceptance boundary -- decoding the stored bit-field yields the same "
-             "type, width and flags; all 26 category names survive as_str/parse. Kernel level; save/reopen is outside.",
+             "type, width and flags; all 26 category names survive as_str/parse. Kernel level; save/reopen is outside. Engine M: "
+             "create_table gets as far as its first catalog step only if every enumeration value of every column visited is non-empty "
+             "and free of ';' (the values are stored joined by ';' and split again on open: on the pinned tree `[\"a;b\"]` reopened as "
+             "`[\"a\", \"b\"]` and `[\"\"]` as no enumeration at all; fixed in /repo).",
     "note": "Trusted: Kani/CBMC; the premise that create_table refuses string widths above the measured boundary "
             "(native bisection on the real Package, refusal assumed upward-closed and spot-checked). Outside: "
-            "_Validation row handling in create_table/open (range, foreign key, enumerations with ';'), 32-column "
+            "_Validation row handling in create_table/open (range, foreign key), 32-column "
             "lists, names, save/reopen through cfb.",
     "kani": [
         H("proofs::c06::c06_bitfield_roundtrip", timeout=300, symbolic="column type, string width (any usize), three flags, category class",
